@@ -233,62 +233,12 @@ func runC06(args []string) int {
 	caseIdx := map[string][]interface{}{"tiny": nil, "bn254": nil}
 	tasksList := []int{2, 3, 16, 512}
 
-	for pi := 0; pi < nprog; pi++ {
-		t := targets[pi%len(targets)]
-		cfg := GenCfg{MaxOps: 8}
-		if pi%7 == 6 {
-			cfg.MaxOps = 70 // long programs: levels with > 50 instructions exercise the parallel path
-			cfg.Kinds = []string{"Add", "Mul", "Sub", "IsZero", "Select", "Xor", "Hint2", "ToBinary"}
-		}
-		p := GenProg(rng, t.Field, cfg)
-		ccs, cerr := compileTarget(t, NewProgCircuit(p))
-		if cerr != "" {
-			rep.Count("compile:" + strings.SplitN(cerr, ":", 2)[0])
-			continue
-		}
-		rep.Count("compiled:" + t.String())
-		d := DumpSystem(ccs)
-		for _, k := range progKinds(p) {
-			rep.Count("op:" + k)
-		}
-		if d.HasOther {
-			rep.Count("skipped:unmodelled-instruction")
-			continue
-		}
-		nin := p.NbPub + p.NbSec
-		// witnesses
-		type wcase struct {
-			kind   string
-			inputs []*big.Int
-			outs   []*big.Int
-		}
-		var wcs []wcase
-		for k := 0; k < 3; k++ {
-			in := make([]*big.Int, nin)
-			for i := range in {
-				in[i] = rng.FieldElem(t.Field)
-				if k == 1 && rng.Intn(2) == 0 {
-					in[i] = big.NewInt(int64(rng.Intn(2)))
-				}
-				if k == 2 {
-					in[i] = big.NewInt(0) // all-zero: 0/0 and zero-divisor branches
-				}
-			}
-			vals, _, _, _ := EvalSpec(p, t.Field, in)
-			outs := make([]*big.Int, len(p.Outs))
-			for i, ov := range p.Outs {
-				outs[i] = vals[ov]
-			}
-			wcs = append(wcs, wcase{"spec-outs", in, outs})
-			if len(outs) > 0 {
-				bad := make([]*big.Int, len(outs))
-				copy(bad, outs)
-				j := rng.Intn(len(outs))
-				bad[j] = new(big.Int).Add(outs[j], big.NewInt(int64(1+rng.Intn(3))))
-				bad[j].Mod(bad[j], t.Field)
-				wcs = append(wcs, wcase{"perturbed-out", in, bad})
-			}
-		}
+	type wcase struct {
+		kind   string
+		inputs []*big.Int
+		outs   []*big.Int
+	}
+	solveCases := func(t Target, p *Prog, ccs interface{}, d *DSystem, wcs []wcase) {
 		for _, wc := range wcs {
 			w, flat, err := progWitness(p, t.Field, wc.inputs, wc.outs)
 			if err != nil {
@@ -339,6 +289,102 @@ func runC06(args []string) int {
 			if len(coqCases[t.Name]) < maxCoq[t.Name] && len(d.Instrs) <= maxInstr[t.Name] {
 				coqCases[t.Name] = append(coqCases[t.Name], coqSolverCase(d, flat, obs))
 				caseIdx[t.Name] = append(caseIdx[t.Name], desc)
+			}
+		}
+	}
+
+	for pi := 0; pi < nprog; pi++ {
+		t := targets[pi%len(targets)]
+		cfg := GenCfg{MaxOps: 8}
+		if pi%7 == 6 {
+			cfg.MaxOps = 70 // long programs: levels with > 50 instructions exercise the parallel path
+			cfg.Kinds = []string{"Add", "Mul", "Sub", "IsZero", "Select", "Xor", "Hint2", "ToBinary"}
+		}
+		p := GenProg(rng, t.Field, cfg)
+		ccs, cerr := compileTarget(t, NewProgCircuit(p))
+		if cerr != "" {
+			rep.Count("compile:" + strings.SplitN(cerr, ":", 2)[0])
+			continue
+		}
+		rep.Count("compiled:" + t.String())
+		d := DumpSystem(ccs)
+		for _, k := range progKinds(p) {
+			rep.Count("op:" + k)
+		}
+		if d.HasOther {
+			rep.Count("skipped:unmodelled-instruction")
+			continue
+		}
+		nin := p.NbPub + p.NbSec
+		// witnesses
+		var wcs []wcase
+		for k := 0; k < 3; k++ {
+			in := make([]*big.Int, nin)
+			for i := range in {
+				in[i] = rng.FieldElem(t.Field)
+				if k == 1 && rng.Intn(2) == 0 {
+					in[i] = big.NewInt(int64(rng.Intn(2)))
+				}
+				if k == 2 {
+					in[i] = big.NewInt(0) // all-zero: 0/0 and zero-divisor branches
+				}
+			}
+			vals, _, _, _ := EvalSpec(p, t.Field, in)
+			outs := make([]*big.Int, len(p.Outs))
+			for i, ov := range p.Outs {
+				outs[i] = vals[ov]
+			}
+			wcs = append(wcs, wcase{"spec-outs", in, outs})
+			if len(outs) > 0 {
+				bad := make([]*big.Int, len(outs))
+				copy(bad, outs)
+				j := rng.Intn(len(outs))
+				bad[j] = new(big.Int).Add(outs[j], big.NewInt(int64(1+rng.Intn(3))))
+				bad[j].Mod(bad[j], t.Field)
+				wcs = append(wcs, wcase{"perturbed-out", in, bad})
+			}
+		}
+		solveCases(t, p, ccs, d, wcs)
+	}
+	// ---- zero denominators: division-like calls whose divisor (a variable or a derived expression) is 0 while the
+	// numerator is not, 0/0, and regular values, on every target: the solver must fail exactly when a constraint is
+	// violated, and a success must satisfy every row / gate (the branch of the sparse solver where the coefficient of
+	// the wire to solve evaluates to 0)
+	{
+		v := func(i int) Arg { return Arg{V: i} }
+		for _, t := range targets {
+			for _, kind := range []string{"DivUnchecked", "Div", "Inverse"} {
+				for shape := 0; shape < 3; shape++ {
+					var p *Prog
+					switch {
+					case kind == "Inverse" && shape == 0:
+						p = &Prog{NbPub: 0, NbSec: 2, Ops: []Op{{Kind: kind, Args: []Arg{v(1)}}}, Outs: []int{2}}
+					case kind == "Inverse":
+						p = &Prog{NbPub: 0, NbSec: 2, Ops: []Op{{Kind: "Sub", Args: []Arg{v(1), v(0)}}, {Kind: kind, Args: []Arg{v(2)}}}, Outs: []int{3}}
+					case shape == 0:
+						p = &Prog{NbPub: 0, NbSec: 2, Ops: []Op{{Kind: kind, Args: []Arg{v(0), v(1)}}}, Outs: []int{2}}
+					case shape == 1: // derived divisor
+						p = &Prog{NbPub: 0, NbSec: 2, Ops: []Op{{Kind: "Sub", Args: []Arg{v(1), v(0)}}, {Kind: kind, Args: []Arg{v(0), v(2)}}}, Outs: []int{3}}
+					default: // derived numerator and divisor, result used again
+						p = &Prog{NbPub: 0, NbSec: 2, Ops: []Op{{Kind: "Mul", Args: []Arg{v(0), v(0)}}, {Kind: "Sub", Args: []Arg{v(1), v(0)}}, {Kind: kind, Args: []Arg{v(2), v(3)}}, {Kind: "Add", Args: []Arg{v(4), v(0)}}}, Outs: []int{5}}
+					}
+					ccs, cerr := compileTarget(t, NewProgCircuit(p))
+					if cerr != "" {
+						rep.Count("compile:" + strings.SplitN(cerr, ":", 2)[0])
+						continue
+					}
+					d := DumpSystem(ccs)
+					var wcs []wcase
+					for _, in := range [][2]int64{{5, 0}, {0, 0}, {0, 3}, {5, 5}, {3, 5}, {1, 1}} {
+						inputs := []*big.Int{big.NewInt(in[0]), big.NewInt(in[1])}
+						vals, _, _, _ := EvalSpec(p, t.Field, inputs)
+						outs := []*big.Int{vals[p.Outs[0]]}
+						wcs = append(wcs, wcase{"zero-denominator", inputs, outs})
+						wcs = append(wcs, wcase{"perturbed-out", inputs, []*big.Int{new(big.Int).Mod(new(big.Int).Add(outs[0], big.NewInt(1)), t.Field)}})
+					}
+					rep.Count("source:zero-denominator")
+					solveCases(t, p, ccs, d, wcs)
+				}
 			}
 		}
 	}
